@@ -350,7 +350,7 @@ Section NoPanic.
     2:{ split; [intros k; discriminate|exact Hc]. }
     2:{ exfalso. eapply block_verify_nopanic; eauto. }
     unfold block_verify in Ev.
-    destruct (Node.stake c (b_author b) =? 0); [discriminate|].
+    gunf; destruct (0 <? Node.stake c (b_author b)); [|discriminate]; cbn [negb] in *.
     destruct (negb _); [discriminate|].
     destruct (if qc_eqb (b_qc b) qc_genesis then ROk tt else qc_verify c (b_qc b)) as [[]|e|k] eqn:Eqv; try discriminate.
     assert (Gq : qc_good c me honest w0 s (b_qc b)) by (apply ($qc_good_of_verify); auto).
